@@ -27,10 +27,15 @@ pub fn generate(scope: &str, name: &str, seed: u64, k: u64, rng: &mut Rng, tier:
             head + &net::run(inst)
         }
         "pipe" => {
-            let p = match rng.below(10) {
-                0..=2 => Profile::small(),
-                3..=4 => Profile::maint_heavy(),
-                5..=6 => Profile::fleet_heavy(),
+            let pick = match std::env::var("RSV_PIPE_PROFILE") {
+                Ok(v) => v.parse::<u64>().unwrap_or(0), // experiments only (mutrate.sh)
+                Err(_) => rng.below(10),
+            };
+            let p = match pick {
+                0..=1 => Profile::small(),
+                2..=3 => Profile::maint_heavy(),
+                4 => Profile::fleet_heavy(),
+                5..=7 | 10 => Profile::cycle_heavy(),
                 _ => Profile::medium(),
             };
             let inst = gen_instance(rng, &p);
